@@ -255,7 +255,7 @@ def run(ctx, scratch):
                        'undefined behaviour other than indexing (e.g. signed overflow) is not observable by the checked build',
                        'time proportionate to the input is approximated by a fixed budget far above the observed run times (milliseconds)',
                        'kernel correspondence: cdef kernels are reached through their one-line Python entry point with the module-level '
-                       'pre-processing replaced by the identity; np.argsort (push) and libc rand() (Leiden refinement) are oracles '
+                       'pre-processing replaced by the identity; np.argsort (push) is an oracle '
                        'recorded from the run; one OpenMP thread; float inputs are dyadic so that float32 arithmetic is exact '
                        '(inputs whose exact trajectory is not representable are dropped and counted)']
 
@@ -308,7 +308,7 @@ import re
 from fractions import Fraction as Fr
 
 from .. import common
-from ..common import cnat, cz, cq, cbool, clist, coq_eval
+from ..common import cnat, cz, cq, cbool, clist, safe_coq_eval
 
 K_IMPORTS = ['Base.Util', 'Model.Vote', 'Model.Wl', 'Model.Safety', 'Model.Safety2', 'Model.Modularity', 'Model.Louvain',
              'Proofs.SafetyProofs', 'Proofs.LouvainTermination', 'Proofs.LouvainFlatTermination']
@@ -505,7 +505,35 @@ def run_cases(ctx, impl, st, site, fn, cases, compare, shard, mod='c17', skip_co
     the stated fuel). compare(case, model_value, impl_value) -> None | 'dropped' | 'tolerance' | (what, expected, observed)."""
     if not cases:
         return
-    vals = coq_eval('c17k_' + re.sub(r'\W', '_', st.name), K_IMPORTS, [c['expr'] for c in cases], prelude=K_PRELUDE, shard=shard, timeout=900)
+    vals = safe_coq_eval(ctx, 'c17k_' + re.sub(r'\W', '_', st.name), K_IMPORTS, [c['expr'] for c in cases], prelude=K_PRELUDE,
+                         shard=shard, timeout=900)
+    if vals is None:
+        # The flat model no longer evaluates (recorded in ctx.proof_broken).  What is judged on the implementation alone still
+        # runs: inside the contract of the kernel's theorems the compiled kernel is called on the same arrays under the
+        # supervisor (hang / crash) and again in the bounds-checked build (checked_call).  Outside the contract only the model
+        # says whether a call is free of out-of-bounds accesses: those cases are not run.
+        vals = []
+        for c in cases:
+            if not skip_count:
+                ctx.count('kernel:%s:%s' % (st.name, c['fam']), (st.name, c['args']), c.get('nontrivial', True))
+            if not c.get('contract', True):
+                st.d['outside_contract'] += 1
+                continue
+            if st.d['hangs_or_crashes'] >= MAX_KERNEL_HANGS:
+                st.d['not_run_after_repeated_hangs'] += 1
+                continue
+            case = dict(kernel=site, family=c['fam'], args=c['args'])
+            r = impl.call(mod, fn, c['args'], timeout=K_TIMEOUT)
+            ctx.traces += 1
+            if 'hang' in r or 'crash' in r:
+                st.d['hangs_or_crashes'] += 1
+                st.d['violations'] += 1
+                ctx.violation(site, 'the compiled kernel %s on an input inside the contract of its termination / safety theorems'
+                              % ('does not return within %.0f s' % K_TIMEOUT if 'hang' in r else
+                                 'killed the interpreter (exit %s)' % r['crash']),
+                              case=case, kind='hang' if 'hang' in r else 'crash', family=c['fam'], kernel_call=True)
+            elif 'ok' in r:
+                checked_call(ctx, st, site, mod, fn, c['args'], case, c['fam'], r['ok'])
     for c, v in zip(cases, vals):
         st.d['evaluated'] += 1
         if not skip_count:
@@ -915,7 +943,8 @@ def k_push(ctx, impl, rng, quick):
                          a['n'], a['n'], nl(a['degrees']), nl(a['indptr']), nl(a['indices']), nl(a['rev_indptr']),
                          nl(a['rev_indices']), ql(c['seeds']), cq(c['damping']), cq(c['tol']), nl(order)))
         cases.append(c)
-    vals = coq_eval('c17k_push', K_IMPORTS, [c['expr'] for c in cases], prelude=K_PRELUDE, shard=100, timeout=900) if cases else []
+    # (model dead: recorded in ctx.proof_broken; every kernel call above was already supervised and repeated in the checked build)
+    vals = (safe_coq_eval(ctx, 'c17k_push', K_IMPORTS, [c['expr'] for c in cases], prelude=K_PRELUDE, shard=100, timeout=900) or []) if cases else []
     for c, (v0, v1) in zip(cases, vals):
         case = dict(kernel='push_pagerank', family=c['fam'], args=c['args'], argsort=c['impl']['argsort'])
         (t0, m0), (t1, m1) = kres_of(v0), kres_of(v1)
@@ -1172,8 +1201,8 @@ def k_louvain(ctx, impl, rng, quick):
 
 
 def k_leiden(ctx, impl, rng, quick):
-    st = KStats('optimize_refine_core', 'exact (same inputs and bit bound as optimize_core); the libc rand() stream is fixed by srand(seed), '
-                'recorded, and handed to the model (reduced modulo 2520, which preserves rand() %% s for every s <= 10); fuel '
+    st = KStats('optimize_refine_core', 'exact (same inputs and bit bound as optimize_core); the kernel carries its own generator, which the model evaluates too '
+                '(Safety2.leiden_draw); libc rand() is re-seeded differently before each of two runs, which must agree; fuel '
                 'min(n^n + 1, %d)' % LEIDEN_FUEL_CAP, 'direct')
     pre = []
 
@@ -1210,13 +1239,14 @@ def k_leiden(ctx, impl, rng, quick):
         sl = [Fr(rng.randint(0, 2)) for _ in range(n)]
         add('%s_%s_general' % (fam, kind), n, indptr, indices, data, ow, iw, sl, [rng.randrange(max(1, n // 2)) for _ in range(n)],
             RESOLUTIONS[k % 5], False)
-    # the rand() stream is an ORACLE of the model, recorded from the run of the kernel. Inside the contract the kernel is run
-    # first (leiden_refine_safe: no out-of-bounds access for ANY stream); outside it the model is first asked, with the
-    # all-zero stream, whether any access is out of bounds.
+    # Inside the contract the kernel is run first (leiden_refine_safe: no out-of-bounds access for ANY stream); outside it the
+    # model (with the coded generator) is first asked whether any access is out of bounds.
     guard = [c for c in pre if not c['contract']]
     if guard:
-        gv = coq_eval('c17k_leiden_guard', K_IMPORTS, [leiden_expr(c, [0], GENERAL_FUEL) for c in guard], prelude=K_PRELUDE, shard=60)
-        for c, v in zip(guard, gv):
+        gv = safe_coq_eval(ctx, 'c17k_leiden_guard', K_IMPORTS, [leiden_expr(c, None, GENERAL_FUEL) for c in guard], prelude=K_PRELUDE, shard=60)
+        for c in guard:
+            c['guard'] = 'model_dead'      # only the model says whether such a call stays in bounds: not run when it is dead
+        for c, v in zip(guard, gv or []):
             c['guard'] = kres_of(v)[0]
     cases = []
     for c in pre:
@@ -1225,6 +1255,8 @@ def k_leiden(ctx, impl, rng, quick):
         case = dict(kernel='optimize_refine_core', family=c['fam'], args=c['args'])
         if not c['contract']:
             st.d['outside_contract'] += 1
+            if c['guard'] == 'model_dead':
+                continue
             if c['guard'] != 'ok':
                 st.d['kernel_not_run_model_oob' if c['guard'] == 'oob' else 'kernel_not_run_model_out_of_fuel'] += 1
                 continue
@@ -1249,23 +1281,26 @@ def k_leiden(ctx, impl, rng, quick):
             ctx.violation('optimize_refine_core', 'the compiled kernel raised', case=case, kind='model_correspondence', family=c['fam'], observed=r)
             continue
         o = r['ok']
-        if not o['reseed_ok'] or o['draws'] is None:
-            ctx.notes.append('optimize_refine_core: rand() stream not reproduced after srand (draws=%r): case skipped' % o['draws'])
+        if not o['libc_independent']:
+            st.d['violations'] += 1
+            ctx.violation('optimize_refine_core', 'two runs of the kernel on the same arguments differ when libc rand() is seeded '
+                          'differently: the kernel is not a function of its arguments', case=case, kind='model_correspondence',
+                          family=c['fam'], observed=o)
             continue
         c['impl'] = o
         checked_call(ctx, st, 'optimize_refine_core', 'c17', 'leiden_refine', c['args'], case, c['fam'], o)
         n = c['n']
         fuel = min(n ** n + 1, LEIDEN_FUEL_CAP) if c['contract'] else GENERAL_FUEL
-        c['expr'] = leiden_expr(c, [x % LCM10 for x in o['stream']], fuel)
+        c['expr'] = leiden_expr(c, None, fuel)
         cases.append(c)
-    vals = coq_eval('c17k_leiden', K_IMPORTS, [c['expr'] for c in cases], prelude=K_PRELUDE, shard=60, timeout=900) if cases else []
+    vals = (safe_coq_eval(ctx, 'c17k_leiden', K_IMPORTS, [c['expr'] for c in cases], prelude=K_PRELUDE, shard=60, timeout=900) or []) if cases else []
     for c, v in zip(cases, vals):
         o = c['impl']
-        case = dict(kernel='optimize_refine_core', family=c['fam'], args=c['args'], rand_stream=o['stream'], draws=o['draws'])
+        case = dict(kernel='optimize_refine_core', family=c['fam'], args=c['args'], generator='Safety2.leiden_draw')
         tag, mv = kres_of(v)
         if tag != 'ok':
             st.d['violations'] += 1
-            ctx.violation('optimize_refine_core', 'the flat model returns %s where the compiled kernel returns (same rand() stream)' % tag,
+            ctx.violation('optimize_refine_core', 'the flat model returns %s where the compiled kernel returns (coded generator)' % tag,
                           case=case, kind='model_envelope' if c['contract'] else 'model_correspondence', family=c['fam'],
                           expected=o, observed=common.jsonable(v))
             continue
@@ -1275,8 +1310,7 @@ def k_leiden(ctx, impl, rng, quick):
             continue
         st.d['compared'] += 1
         lr, passes = mv
-        if o['ret'] != list(lr) or o['lr_after'] != list(lr) or o['labels_after'] != c['args']['labels'] or any(o['cw']) \
-                or o['draws'] > passes * max(c['n'], 1):
+        if o['ret'] != list(lr) or o['lr_after'] != list(lr) or o['labels_after'] != c['args']['labels'] or any(o['cw']):
             st.d['violations'] += 1
             ctx.violation('optimize_refine_core', 'compiled kernel differs from its flat model: refined labels', case=case,
                           kind='model_correspondence', family=c['fam'], expected=dict(labels_refined=list(lr), passes=passes), observed=o)
@@ -1284,15 +1318,16 @@ def k_leiden(ctx, impl, rng, quick):
             st.d['agree'] += 1
             if st.d['agree'] == 1:
                 ctx.sample(dict(kind='kernel_correspondence', kernel='optimize_refine_core', family=c['fam'], args=c['args'],
-                                rand_stream=o['stream'], model=[list(lr), passes]), limit=20)
+                                generator='Safety2.leiden_draw', model=[list(lr), passes]), limit=20)
     return st
 
 
 def leiden_expr(c, stream, fuel):
     q = c['q']
     n = c['n']
-    return 'Safety2.optimize_refine_core %d (fun k => nth k %s 0) %s %s %s %s %s %s %s %s %s %s %s %s' % (
-        fuel, nl(stream), nl(q['labels']), nl(q['lr']), nl(q['indices']), nl(q['indptr']), ql(q['data']), ql(q['ow']), ql(q['iw']),
+    rnd = 'Safety2.leiden_draw' if stream is None else '(fun k => nth k %s 0)' % nl(stream)
+    return 'Safety2.optimize_refine_core %d %s %s %s %s %s %s %s %s %s %s %s %s %s' % (
+        fuel, rnd, nl(q['labels']), nl(q['lr']), nl(q['indices']), nl(q['indptr']), ql(q['data']), ql(q['ow']), ql(q['iw']),
         ql(q['ow']), ql(q['iw']), ql([Fr(0)] * n), ql(q['sl']), cq(q['res']))
 
 
@@ -1361,11 +1396,13 @@ def k_bfs_light(ctx, impl, rng, quick):
         cases.append(dict(fam=fam, args=dict(m=c10.mspec(n, n, E), source=S, source_row=None, source_col=None, transpose=tr,
                                              force_bipartite=False),
                           expr='get_distances %s %s None None %s false' % (c10.pmat(n, n, E), c10.src_lit(S), cbool(tr))))
-    vals = coq_eval('c17k_bfs', ['Base.Util', 'Model.Bfs'], [c['expr'] for c in cases], shard=100)
+    vals = safe_coq_eval(ctx, 'c17k_bfs', ['Base.Util', 'Model.Bfs'], [c['expr'] for c in cases], shard=100)
+    if vals is None:
+        vals = [None] * len(cases)       # model dead: the calls are still supervised (hang / crash), nothing to compare with
     for c, v in zip(cases, vals):
         st.d['evaluated'] += 1
         ctx.count('kernel:get_distances:' + c['fam'], ('bfs', c['args']), True)
-        exp = c10.conv_dist(v)
+        exp = c10.conv_dist(v) if v is not None else None
         r = impl.call('c10', 'distances', c['args'], timeout=K_TIMEOUT)
         ctx.traces += 1
         case = dict(kernel='get_distances', family=c['fam'], args=c['args'])
@@ -1373,6 +1410,8 @@ def k_bfs_light(ctx, impl, rng, quick):
             st.d['violations'] += 1
             ctx.violation('get_distances', 'does not return / crashes where the model returns', case=case,
                           kind='hang' if 'hang' in r else 'crash', family=c['fam'], kernel_call=True, expected=exp)
+            continue
+        if v is None:
             continue
         st.d['compared'] += 1
         if c10.canon_impl(r) != exp:
@@ -1400,7 +1439,9 @@ def k_paris_light(ctx, impl, rng, quick):
         cases.append(dict(fam=fam, n=n, args=dict(algo='Paris', opts=dict(weights='degree' if degree else 'uniform', reorder=False),
                                                   m=c07.spec(n, n, coo)),
                           expr='cvp (paris_src exact %s %s false %d %s)' % (cq(c07.HINF), cbool(degree), n, c07.centries(coo))))
-    vals = coq_eval('c17k_paris', c07.IMPORTS, [c['expr'] for c in cases], prelude=c07.PRELUDE, shard=12)
+    vals = safe_coq_eval(ctx, 'c17k_paris', c07.IMPORTS, [c['expr'] for c in cases], prelude=c07.PRELUDE, shard=12)
+    if vals is None:
+        vals = [None] * len(cases)       # model dead: the calls are still supervised (hang / crash), nothing to compare with
     for c, v in zip(cases, vals):
         st.d['evaluated'] += 1
         ctx.count('kernel:paris:' + c['fam'], ('paris', c['args']), True)
@@ -1411,6 +1452,8 @@ def k_paris_light(ctx, impl, rng, quick):
             st.d['violations'] += 1
             ctx.violation('paris', 'does not return / crashes', case=case, kind='hang' if 'hang' in r else 'crash', family=c['fam'],
                           kernel_call=True, expected=common.jsonable(v))
+            continue
+        if v is None:
             continue
         st.d['compared'] += 1
         m_ok = v[0] == 'Ok' and len(v[1][0]) == c['n'] - 1
